@@ -28,9 +28,9 @@ static const Mode g_modes[] = {
   {"crash", gen_crash, exec_crash},
   {"conc", gen_conc, exec_conc},
   {"ioerr", gen_ioerr, exec_ioerr},
-#ifdef LSIM_ALL_MODES
   {"corrupt", gen_corrupt, exec_corrupt},
   {"logfmt", gen_logfmt, exec_logfmt},
+#ifdef LSIM_ALL_MODES
   {"repair", gen_repair, exec_repair},
   {"life", gen_life, exec_life},
 #endif
